@@ -188,7 +188,7 @@ theorem float_text_is_number (cfg : Cfg) (b places : Nat) (h1 : SF.isNaN SF.b64 
 /-- hence, inside a document (a delimiter or the end follows) the scan of `parseNumeric` takes exactly that text,
     provided it fits the 63-byte number buffer -/
 theorem float_text_scanned (cfg : Cfg) (b places : Nat) (h1 : SF.isNaN SF.b64 b = false) (h2 : SF.isInf SF.b64 b = false)
-    (hlen : (JS.writeFloat cfg b places).length ≤ 63) (s : St) (rest : List UInt8) (p : Nat) (hd : Delim cfg rest)
+    (hlen : (JS.writeFloat cfg b places).length ≤ 63) (s : St) (rest : List UInt8) (p : Nat) (hd : Delim_rt cfg rest)
     (h : Vw s (JS.writeFloat cfg b places ++ rest) p) :
     ∃ s', scanNumber cfg (Gen.number_buffer - 1) [] s = (JS.writeFloat cfg b places, s') ∧
       Vw s' rest (p + (JS.writeFloat cfg b places).length) := by
@@ -226,8 +226,8 @@ theorem float_readable_plain (cfg : Cfg) (n : Num) (w places : Nat) (hp : JS.pri
   cases h1 : SF.isNaN SF.b64 w
   · cases h2 : SF.isInf SF.b64 w
     · exact float_readable cfg n w places hp hpl h1 h2
-    · exact Or.inl (by rw [hp]; simp only [JS.writeFloat, h1, h2, hinf, Bool.false_eq_true, ↓reduceIte, kw_null]; rfl)
-  · exact Or.inl (by rw [hp]; simp only [JS.writeFloat, h1, hnan, Bool.false_eq_true, ↓reduceIte, kw_null]; rfl)
+    · exact Or.inl (by rw [hp]; simp only [JS.writeFloat, h1, h2, hinf, Bool.false_eq_true, ↓reduceIte, kw_null_rt]; rfl)
+  · exact Or.inl (by rw [hp]; simp only [JS.writeFloat, h1, hnan, Bool.false_eq_true, ↓reduceIte, kw_null_rt]; rfl)
 
 def FiniteS : Val → Prop
   | .num (.f64 b) => SF.isNaN SF.b64 b = false ∧ SF.isInf SF.b64 b = false
